@@ -17,9 +17,24 @@ class Unsupported(Exception):
 
 
 class Leak(Exception):
-    def __init__(self, kind, where, expr, witness):
+    def __init__(self, kind, where, expr, witness, vars=()):
         Exception.__init__(self, kind)
         self.kind, self.where, self.expr, self.witness = kind, where, expr, witness
+        self.vars = set(vars)
+
+
+def expr_vars(e):
+    seen, out, stack = set(), set(), [e]
+    while stack:
+        x = stack.pop()
+        if x.get_id() in seen:
+            continue
+        seen.add(x.get_id())
+        if z3.is_const(x) and x.decl().kind() == z3.Z3_OP_UNINTERPRETED:
+            out.add(str(x))
+        else:
+            stack.extend(x.children())
+    return out
 
 
 class Ptr:
@@ -168,6 +183,31 @@ class Machine:
             w2 = {str(v): (mdl.eval(p, model_completion=True).as_long()) for v, p in zip(self.secrets, self.primed)}
             return True, (w1, w2)
         if r == z3.unknown:
+            # fallback for 1-bit values (branch conditions): two separate satisfiability queries, one per
+            # outcome, are smaller than the relational query; both satisfiable = two secrets that differ
+            if z3.is_bv(e) and e.size() == 1 or z3.is_bool(e):
+                models = []
+                for want in (1, 0):
+                    s1 = z3.Solver()
+                    s1.set("timeout", self.timeout_ms)
+                    for c in self.pre:
+                        s1.add(c)
+                    s1.add((e == want) if z3.is_bv(e) else (e if want else z3.Not(e)))
+                    t0 = time.time()
+                    r1 = s1.check()
+                    self.stats["queries"] += 1
+                    self.stats["solver_s"] += time.time() - t0
+                    if r1 == z3.sat:
+                        models.append(s1.model())
+                    elif r1 == z3.unsat:
+                        # this outcome is impossible: the value is constant
+                        return False, 1 - want
+                    else:
+                        break
+                if len(models) == 2:
+                    w1 = {str(v): models[0].eval(v, model_completion=True).as_long() for v in self.secrets}
+                    w2 = {str(v): models[1].eval(v, model_completion=True).as_long() for v in self.secrets}
+                    return True, (w1, w2)
             raise Unsupported("solver unknown/timeout at a leak point")
         # constant: find its value
         s2 = z3.Solver()
@@ -191,7 +231,8 @@ class Machine:
             return v
         var, res = self.varies(v)
         if var:
-            leak = Leak(kind, where, str(z3.simplify(v))[:400], res)
+            sv = z3.simplify(v)
+            leak = Leak(kind, where, str(sv)[:400], res, expr_vars(sv))
             if self.on_leak is not None and self.on_leak(leak):
                 # a recorded (known) leak: keep going on the sub-space of secrets that agree with the
                 # first witness at this point, so that later leak points of the wrapper are still examined
